@@ -135,6 +135,7 @@ var fixedFields = map[string]bool{"recordType": true, "reserved": true, "reserve
 type genOpts struct {
 	maxCL, maxBundles, maxItems int
 	binary                      bool // arbitrary bytes in signatures / images (length-prefix framing only)
+	b64plain                    bool // base64 images decode to letters and digits only
 	b64                         int  // percent of images given as base64 text (standard or URL-safe alphabet) with LengthImageData = decoded size
 	kind                        int  // 0: forward or return cash letters at random, 1: forward only, 2: return only
 	emptyCL                     bool // now and then a cash letter of record type "N": no bundles, credit items only
@@ -292,11 +293,29 @@ func mkIVData(r rng, o genOpts) icl.ImageViewData {
 			raw[i] = byte(r.Intn(256))
 		}
 		raw[0], raw[1], raw[2] = 0xfb, 0xef, 0xbe // encodes to "++++" / "----": both alphabets differ visibly
+		if o.b64plain {
+			// a decoded image of letters and digits only: it can be written newline-framed in either character set
+			for i := range raw {
+				raw[i] = "ABCDEFGHJKLMNPQRSTUVWXYZ0123456789"[r.Intn(34)]
+			}
+		}
 		enc := base64.StdEncoding
 		if r.Intn(2) == 0 {
 			enc = base64.URLEncoding
 		}
-		d.ImageData = []byte(enc.EncodeToString(raw))
+		txt := enc.EncodeToString(raw)
+		if r.Intn(3) == 0 {
+			// base64 text wrapped in lines, as `base64` or a MIME encoder emits it (line breaks are not part of the data)
+			w := 4 * (1 + r.Intn(5))
+			nl := []string{"\n", "\r\n"}[r.Intn(2)]
+			var sb strings.Builder
+			for i := 0; i < len(txt); i += w {
+				sb.WriteString(txt[i:min(i+w, len(txt))])
+				sb.WriteString(nl)
+			}
+			txt = sb.String()
+		}
+		d.ImageData = []byte(txt)
 		d.LengthImageData = fmt.Sprintf("%07d", len(raw))
 	}
 	return d
